@@ -228,6 +228,34 @@ let () =
          | _ -> print_endline "noroots");
         print_endline "END";
         flush stdout
+      | ["seq2reads"; cmpid; name; nops; hexfile] ->
+        (* as seqreads, with whole visits, Len and GetTotals *)
+        let f = bytes_of_hex hexfile in
+        let name = bytes_of_hex name in
+        let nops = int_of_string nops in
+        let ops = List.init nops (fun _ ->
+          match String.split_on_char ' ' (input_line stdin) with
+          | ["get"; k; wv] -> S1 (SGet (bytes_of_hex k, wv = "t"))
+          | ["min"; wv] -> S1 (SMin (wv = "t"))
+          | ["max"; wv] -> S1 (SMax (wv = "t"))
+          | ["set"; k; v; prio] -> S1 (SSet (bytes_of_hex k, bytes_of_hex v, z_of_int (int_of_string prio)))
+          | ["del"; k] -> S1 (SDel (bytes_of_hex k))
+          | ["vis"; dir; k; wv; b] -> SVis (dir = "asc", bytes_of_hex k, wv = "t", nat_of_int (int_of_string b))
+          | ["len"] -> SLen
+          | ["tot"] -> STot
+          | _ -> raise (Unsupported "seq2reads op")) in
+        let show rs = String.concat " " ("r" :: List.map (fun (Rd (o, n)) -> Printf.sprintf "%d:%d" (int_of_z o) (int_of_z n)) rs) in
+        (match scan f (blen f) with
+         | ScanFound (e, m) ->
+           (match List.assoc_opt name m with
+            | None -> print_endline "nocoll"
+            | Some root ->
+              (match seq2_reads_file (cmp_of (nat_of_int (int_of_string cmpid))) f root e ops with
+               | Some rss -> List.iter (fun rs -> print_endline (show rs)) rss
+               | None -> print_endline "undecodable"))
+         | _ -> print_endline "noroots");
+        print_endline "END";
+        flush stdout
       | ["openreads"; hexfile] ->
         let rs = open_reads (bytes_of_hex hexfile) in
         print_endline (String.concat " " ("r" :: List.map (fun (Rd (o, n)) -> Printf.sprintf "%d:%d" (int_of_z o) (int_of_z n)) rs));
